@@ -30,6 +30,10 @@ MS = {"chrono::time_delta::TimeDelta::days": 86_400_000, "chrono::time_delta::Ti
       "chrono::time_delta::TimeDelta::milliseconds": 1}
 
 
+# Ok-payload ranges of library calls (axioms): std::io::Seek positions are file offsets (off_t / slice lengths), never above i64::MAX
+OK_RANGES = {"std::io::Seek::stream_position": (0, (1 << 63) - 1), "std::io::Seek::seek": (0, (1 << 63) - 1)}
+
+
 def meet(a, b):
     return (max(a[0], b[0]), min(a[1], b[1]))
 
@@ -62,6 +66,8 @@ class FnAnalysis:
         self.visits = {}
         self.param_rng = param_rng or {}
         self.ret = None         # hull of returned integer range
+        self.returns = []       # states at Return terminators (last fixpoint pass)
+        self.collect_ret = None  # when a list: (state, value) right after each assignment to the return place
         self.run()
 
     # ---------------- terms for places / operands
@@ -84,7 +90,14 @@ class FnAnalysis:
                 elif v[0] == "tuple":
                     v = v[1][e["f"]]
                 elif v[0] == "down":
-                    v = ("vfld", v[1], v[2], name)
+                    if v[2] in ("Continue", "Ok") and v[1][0] == "try":
+                        v = ("okval", v[1][1])
+                    elif v[2] == "Ok":
+                        v = ("okval", v[1])
+                    elif v[2] == "Some":
+                        v = ("someval", v[1][1] if v[1][0] == "try" else v[1])
+                    else:
+                        v = ("vfld", v[1], v[2], name)
                 else:
                     v = fld(v, name)
                 self._reg(v, e.get("ty"))
@@ -132,7 +145,8 @@ class FnAnalysis:
             a, b = self.operand(st, s["a"]), self.operand(st, s["b"])
             op, ty = s["op"], s["ty"]
             if op.endswith("WithOverflow"):
-                t = binop(op, a, b, ty)
+                # keep the checked operation unsimplified: its overflow flag is decided from the operand ranges
+                t = ("bin", op.replace("WithOverflow", ""), a, b, ty)
                 self._reg(t, ty)
                 return ("ovf", t)
             t = binop(op, a, b, ty)
@@ -255,6 +269,14 @@ class FnAnalysis:
             return (a[0] * t[1], a[1] * t[1])
         if k == "in" or k == "not" or k == "ovf_flag":
             return (0, 1)
+        if k == "okval":
+            x = t[1]
+            if x[0] == "ret" and x[1] == self.fn.path:
+                ct = self.fn.blocks[x[2]]["term"]
+                r = OK_RANGES.get(callee_of(ct)) or OK_RANGES.get(ct.get("callee") or "")
+                if r:
+                    return meet(self.tyrange(t), r)
+            return self.tyrange(t)
         return self.tyrange(t)
 
     @staticmethod
@@ -322,12 +344,14 @@ class FnAnalysis:
             return None if t is None else (not t)
         if k == "ovf_flag":
             b = c[1]
+            if b[0] != "bin":
+                return None
             ty = b[4]
             m = self.math(b[1], self.range_of(st, b[2]), self.range_of(st, b[3]), ty)
             lo, hi = ty_range(ty)
             if m[0] >= lo and m[1] <= hi:
                 return False
-            if (b[1].startswith("Sub")) and ("le", b[3], b[2]) in st.rel and lo == 0:
+            if (b[1].startswith("Sub")) and (("le", b[3], b[2]) in st.rel or ("lt", b[3], b[2]) in st.rel) and lo == 0:
                 return False
             return None
         if k == "bin" and c[1] in ("Lt", "Le", "Eq", "Ne"):
@@ -367,6 +391,19 @@ class FnAnalysis:
         k = c[0]
         if k == "not":
             return self.assume(st, c[1], not truth)
+        if truth:
+            # conditions that imply an Option-valued `get` is Some imply the slice is long enough
+            x = None
+            if k == "is_some":
+                x = c[1]
+            elif k == "in" and c[1][0] == "discr" and c[3] == ((1, 1),):
+                x = c[1][1]
+            elif k == "bin" and c[1] == "Eq" and c[4] == "val":
+                for a, b in ((c[2], c[3]), (c[3], c[2])):
+                    if b[0] == "adt" and b[2] == "Some":
+                        x = a
+            if x is not None:
+                self._imply_some(st, x)
         if k == "in":
             ty = c[2]
             rs = c[3] if truth else sym.rs_compl(c[3], ty)
@@ -403,7 +440,39 @@ class FnAnalysis:
                     del st.rng[x]
             return st
         st.rng[c] = (1, 1) if truth else (0, 0)
+        if k == "call" and truth and self.eng.is_pure(c[1]):
+            # facts that hold whenever this pure boolean callee returns true, instantiated at the actual arguments
+            for term, r in self.eng.true_facts(c[1]).items():
+                sub = {("arg", i + 1): a for i, a in enumerate(c[2])}
+                inst = sym.rebuild(term, sub)
+                cur = st.rng.get(inst)
+                st.rng[inst] = meet(cur, r) if cur else r
+                if term in self.eng.analysis(c[1]).ty:
+                    self.ty.setdefault(inst, self.eng.analysis(c[1]).ty[term])
         return st
+
+    def _imply_some(self, st, x):
+        while x[0] in ("try",):
+            x = x[1]
+        if x[0] != "get":
+            return
+        s, idx = x[1], x[2]
+        need = None
+        if idx[0] == "adt":
+            f = dict(idx[3])
+            n = idx[1].split("::")[-1]
+            if n in ("Range", "RangeTo") and f.get("end") is not None:
+                need = self.range_of(st, f["end"])[0]
+            elif n == "RangeFrom":
+                need = self.range_of(st, f["start"])[0]
+            elif n == "RangeToInclusive":
+                need = self.range_of(st, f["end"])[0] + 1
+        else:
+            need = self.range_of(st, idx)[0] + 1
+        if need is not None and need > 0:
+            lt = ("len", s)
+            self._reg(lt, "usize")
+            st.rng[lt] = meet(self.range_of(st, lt), (need, INF))
 
     # ---------------- transfer
     def step_block(self, bb, st, visitor=None):
@@ -415,6 +484,8 @@ class FnAnalysis:
             if s["s"] == "assign":
                 v = self.rvalue(st, s, bb, i)
                 self.write(st, s["dst"], v)
+                if s["dst"]["l"] == 0 and not s["dst"]["p"] and self.collect_ret is not None:
+                    self.collect_ret.append((st.copy(), v))
         t = blk["term"]
         k = t["t"]
         if visitor:
@@ -423,6 +494,7 @@ class FnAnalysis:
             return [(t["target"], st)]
         if k in ("return", "unreachable", "resume", "terminate", "coroutine_drop"):
             if k == "return":
+                self.returns.append(st)
                 v = st.val.get(0)
                 if v is not None:
                     r = self.range_of(st, v)
@@ -471,6 +543,8 @@ class FnAnalysis:
             args = [self.operand(st, a["node"] if "node" in a else a) for a in t["args"]]
             res = self.call_value(st, t, args, bb)
             self.write(st, t["dest"], res)
+            if t["dest"]["l"] == 0 and not t["dest"]["p"] and self.collect_ret is not None:
+                self.collect_ret.append((st.copy(), res))
             # a call that takes &mut to a local may change it: forget what we know about such locals
             for a in t["args"]:
                 pass
@@ -504,6 +578,8 @@ class FnAnalysis:
                 return v
         if name in MS:
             return ("ms", MS[name], args[0])
+        if name.endswith("as core::ops::try_trait::Try>::branch") or decl == "core::ops::try_trait::Try::branch":
+            return ("try", args[0])
         target = eng.prog.fn(name) or eng.prog.fn(decl)
         rty = None
         dest_ty = self.place_ty(t["dest"])
@@ -607,6 +683,7 @@ class Engine:
         self._ret = {}
         self._pure = {}
         self._an = {}
+        self._tf = {}
         self.value_models = dict(VALUE_MODELS)
 
     def analysis(self, path, param_rng=None):
@@ -634,6 +711,28 @@ class Engine:
         self._ret[path] = r
         return r
 
+    def true_facts(self, path):
+        """{term over ('arg', i): interval} valid on every return of the (pure, bool) callee whose value may be true"""
+        if path in self._tf:
+            return self._tf[path]
+        self._tf[path] = {}
+        an = self.analysis(path)
+        an.collect_ret = []
+        an.visit_sites(lambda bb, st, t: None)       # one more pass over the fixpoint to collect the return-place assignments
+        sites, an.collect_ret = an.collect_ret, None
+        facts = None
+        for st, v in sites:
+            if an.truth(st, v) is False:
+                continue
+            st = an.assume(st, v, True) or st
+            f = {tm: r for tm, r in st.rng.items() if _only_args(tm)}
+            if facts is None:
+                facts = f
+            else:
+                facts = {tm: hull(facts[tm], f[tm]) for tm in facts if tm in f}
+        self._tf[path] = facts or {}
+        return self._tf[path]
+
     def is_pure(self, path, stack=()):
         if path in self._pure:
             return self._pure[path]
@@ -651,6 +750,9 @@ class Engine:
                 name = callee_of(t)
                 if name in PURE_STD or (t.get("callee") or "") in PURE_STD:
                     continue
+                if name not in self.prog.fns and (t.get("callee") or "") not in self.prog.fns and not _has_mut_arg(fn, t) \
+                        and not any(x in name for x in EFFECTFUL):
+                    continue
                 tgt = self.prog.fn(name)
                 if tgt is not None and self.is_pure(tgt.path, stack + (path,)):
                     continue
@@ -658,6 +760,30 @@ class Engine:
                 break
         self._pure[path] = ok
         return ok
+
+
+EFFECTFUL = ("::now", "reqwest", "tokio", "sleep", "atomic", "mpsc", "std::io", "std::fs", "std::env", "rand", "log::", "RefCell", "Cell", "Mutex")
+
+
+def _has_mut_arg(fn, t):
+    for a in t["args"]:
+        if a.get("k") in ("copy", "move"):
+            l = a["pl"]["l"]
+            ty = fn.locals[l]["ty"]
+            if not a["pl"]["p"] and ty.get("k") == "ref" and ty.get("mut"):
+                return True
+            if not a["pl"]["p"] and ty.get("k") in ("ptr",):
+                return True
+    return False
+
+
+def _only_args(t):
+    """term mentions no frame-local unknowns (ret/phi/loc), only callee arguments and constants"""
+    if not isinstance(t, tuple):
+        return True
+    if t and t[0] in ("ret", "phi", "loc", "unk", "loc2"):
+        return False
+    return all(_only_args(x) for x in t[1:])
 
 
 def _vm_saturating_sub(an, st, t, args):
@@ -698,7 +824,36 @@ def _vm_size_of(an, st, t, args):
     return None
 
 
+def _vm_get(an, st, t, args):
+    return ("get", args[0], args[1])
+
+
+def _vm_is_some(an, st, t, args):
+    return ("is_some", args[0])
+
+
+def _vm_is_none(an, st, t, args):
+    return mk_not(("is_some", args[0]))
+
+
+def _vm_eq(an, st, t, args):
+    a, b = args
+    if repr(b) < repr(a):
+        a, b = b, a
+    return ("bin", "Eq", a, b, "val")
+
+
+def _vm_ne(an, st, t, args):
+    return mk_not(_vm_eq(an, st, t, args))
+
+
 VALUE_MODELS = {
+    "core::slice::<impl [T]>::get": _vm_get,
+    "core::str::<impl str>::get": _vm_get,
+    "core::option::Option::<T>::is_some": _vm_is_some,
+    "core::option::Option::<T>::is_none": _vm_is_none,
+    "<core::option::Option<T> as core::cmp::PartialEq>::eq": _vm_eq,
+    "<core::option::Option<T> as core::cmp::PartialEq>::ne": _vm_ne,
     "core::mem::size_of": _vm_size_of,
     "core::cmp::Ord::min": _vm_min,
     "core::cmp::Ord::max": _vm_max,
